@@ -17,8 +17,8 @@ from . import c10 as base
 
 LIMITS = {"search": 2000, "ud_calls": 10000, "size": 20_000_000, "time_ms": 300, "depth": 1000, "recursion": 20000}
 ANSWER = 8.0          # seconds (times the measured slowdown) a call may stay silent before it is re-run alone
-WATCHDOG = 60.0       # … and under this deadline (times the slowdown) a silent call is a hang
-AS_CAP = 6 << 30      # address-space cap of a harness child (its serving thread reserves 1 GiB of stack)
+WATCHDOG = 40.0       # … and under this deadline (times the slowdown) a silent call is a hang
+AS_CAP = 3 << 30      # address-space cap of a harness child (its serving thread reserves 1 GiB of stack)
 
 POS = [0, 1, 2, 3, 10, 2**31 - 1, 2**31 + 1, 2**32 - 1, 2**32 + 1, 2**53, 2**61, 2**62, 2**63 - 1, 2**63, 2**63 + 1,
        2**64 - 1, 2**64, 2**64 + 1, 10**18, 10**19, 10**30]
@@ -196,14 +196,22 @@ def run_sweep(chk):
     chk.coverage["adv_unsupported_sample"] = unsupported[:12]
     slow = L.slowdown()
     reqs = [{"op": "run", "src": f"let a = {e};", "get": ["a"], "limits": LIMITS} for _, e in calls]
-    res = run_capped(reqs, ANSWER * slow)
+    res = run_capped(reqs, ANSWER * slow, jobs=8)
     again = [i for i, r in enumerate(res) if "hang" in r or "abort" in r]
+    # a silent call is confirmed alone under the long deadline; only the first CONFIRM suspects are (a change that makes
+    # many calls hang must still be reported in reasonable time), the others are counted, not reported
+    CONFIRM = 6
     if again:
-        res2 = run_capped([reqs[i] for i in again[:40]], WATCHDOG * slow, jobs=4)
-        for i, r in zip(again[:40], res2):
+        res2 = run_capped([reqs[i] for i in again[:CONFIRM]], WATCHDOG * min(slow, 3.0), jobs=CONFIRM)
+        for i, r in zip(again[:CONFIRM], res2):
             res[i] = r
+        for i in again[CONFIRM:]:
+            res[i] = {"unconfirmed": True}
+            chk.count("adv:silent-not-confirmed")
     for (fn, e), r in zip(calls, res):
         chk.evaluations += 1
+        if "unconfirmed" in r:
+            continue
         f = base.c16._fail(r)
         kind = ("hang" if f == "HANG" else "abort" if f and f.startswith("panic abort") else "panic" if f and f.startswith("panic")
                 else "compile" if f and f.startswith("COMPILE") else "violation" if f and f.startswith("viol") else
